@@ -673,7 +673,9 @@ ElemNumber::getPreviousNode(
             {
                 next = pos->getParentNode();
 
-                if(0 != next &&
+                // The root node has no parent, so there
+                // is nothing before it.
+                if(0 == next ||
                    next->getNodeType() == XalanNode::DOCUMENT_NODE ||
                    (0 != fromMatchPattern &&
                         fromMatchPattern->getMatchScore(
